@@ -1,7 +1,11 @@
 (* The simulation between the manager's state and the book-keeping of the C15 oracle, preserved by
    every operation inside the API contract; from it: the oracle accepts every history of the model
    (all slot counts, all operation lists), and every reader accessor is total in every reachable state. *)
-Require Import V.Base.MachineInt V.Generated.GenConsts V.Model.Counters V.Oracle.C15Oracle V.Proofs.CountersProofs.
+Require Import V.Base.MachineInt.
+Require Import V.Generated.GenConsts.
+Require Import V.Model.Counters.
+Require Import V.Oracle.C15Oracle.
+Require Import V.Proofs.CountersProofs.
 From Coq Require Import ZifyBool Lia.
 Open Scope Z_scope.
 
